@@ -367,6 +367,15 @@ def run_case(run, spec):
                 ok, got = call_real(run, lambda: ds.get_wrapper_of_type(T), what="get_wrapper_of_type")
                 if not ok or not chk("get_wrapper_of_type", got is (want[0] if want else None), True):
                     return
+        # queries with a BASE class of a layer's type: whichever matching rule the library uses, its lookups must agree with each other
+        exact = {type(w) for w in wrappers}
+        bases = {b for w in wrappers for b in type(w).__mro__[1:] if b is not object and b not in exact and b.__module__.startswith("kappadata")}
+        for T in sorted(bases, key=lambda b: b.__name__):
+            ok, pair = call_real(run, lambda: (bool(ds.has_wrapper_type(T)), len(ds.get_wrappers_of_type(T))), what=f"has_wrapper_type / get_wrappers_of_type ({T.__name__})")
+            if not ok:
+                return
+            if not chk("wrapper-type-lookups-disagree", pair[0], pair[1] > 0):
+                return
         for w in wrappers:
             ok, got = call_real(run, lambda: ds.has_wrapper(w), what="has_wrapper")
             if not ok or not chk("has_wrapper", bool(got), True):
